@@ -273,7 +273,8 @@ class LoopCtx:
         self.cls = cls
         self.guards = list(guards)
         self.inner_vars = inner_vars     # set of var ids defined inside the loop body
-        self.effects = []                # (var, path, op, value)
+        self.effects = []                # (var, path, op, value, guards, binders)
+        self.reads = set()               # variables read while this loop was active
         self.order = 0
 
 
@@ -290,6 +291,12 @@ class Interp:
         self.loops = []            # stack of LoopCtx
         self.opaque_counter = 0
         self.trace = []
+        self.early_returns = []
+        self.recurrences = []
+        self.derived_sizes = {}
+        self.var_names = {}
+        self.cond_stack = []
+        self.extra_guards = []
 
     # ---- environment ------------------------------------------------------------------------
     class Env:
@@ -359,6 +366,7 @@ class Interp:
     def bind(self, pat, val, env):
         k = pat["k"]
         if k == "bind":
+            self.var_names[pat["var"]["id"]] = pat["name"]
             env.define(pat["var"]["id"], val)
             if "sub" in pat:
                 self.bind(pat["sub"], val, env)
@@ -434,7 +442,13 @@ class Interp:
         raise Undecided("literal %s" % lit, e.get("span"))
 
     def e_var(self, e, env):
-        return env.get(e["var"]["id"])
+        vid = e["var"]["id"]
+        if not self.suppress_reads:
+            for lc in self.loops:
+                lc.reads.add(vid)
+        return env.get(vid)
+
+    suppress_reads = 0
 
     e_upvar = e_var
 
@@ -545,12 +559,9 @@ class Interp:
             cls = self.class_of_index.get(hi.ent)
             guards.append(lambda k, h=hi.ent: ("<", k, h))
         else:
-            d = self.size_minus_const(hi)
-            if d is not None:
-                cls, c = d
-                guards.append(lambda k, _c=c, _cls=cls: ("<", k, ("size-", _cls, _c)))
-                raise Undecided("range bound size-minus-constant")
-            raise Undecided("range upper bound %s" % hi.expr.key())
+            # extent given by an arithmetic expression: a derived size class named by its canonical formula
+            cls = "⟨%s⟩" % hi.expr.simplified().key()
+            self.derived_sizes[cls] = hi.expr
         # lower bound
         if lo.ent == 0:
             pass
@@ -617,6 +628,9 @@ class Interp:
         op = e["op"]
         l = self.eval(e["l"], env)
         r = self.eval(e["r"], env)
+        if op == "Div" and (self.types.get(e["ty"]) or {}).get("name") in INT_TYPES and isinstance(l, Num) and isinstance(r, Num):
+            # integer division floors: it is NOT multiplication by the inverse
+            return Num(Expr.atom(("call", "idiv", l.expr, r.expr)))
         return self.binop(op, l, r, e)
 
     def binop(self, op, l, r, e=None):
@@ -694,24 +708,43 @@ class Interp:
         return self.if_opaque(c, e, env)
 
     def if_opaque(self, c, e, env):
+        """Condition the model cannot decide: evaluate both arms and merge the states with ite.  An arm that returns early
+        (error / shortcut exit) is split off: evaluation continues on the other arm under the negated condition."""
         snap = snapshot(env)
+        t_ret = e_ret = None
+        tv = ev = UNIT
         self.cond_stack.append(c)
         try:
             tv = self.eval(e["then"], env)
+        except ReturnSignal as r:
+            t_ret = r
         finally:
             self.cond_stack.pop()
         tstate = snapshot(env)
         restore(env, snap)
-        ev = UNIT
         if "else" in e:
             self.cond_stack.append(c.negate())
             try:
                 ev = self.eval(e["else"], env)
+            except ReturnSignal as r:
+                e_ret = r
             finally:
                 self.cond_stack.pop()
         estate = snapshot(env)
+        if t_ret is not None and e_ret is not None:
+            raise ReturnSignal(merge_vals(c, t_ret.value, e_ret.value))
+        if t_ret is not None:
+            self.early_returns.append((c.key(), t_ret.value))
+            restore(env, estate)
+            return ev
+        if e_ret is not None:
+            self.early_returns.append((c.negate().key(), e_ret.value))
+            restore(env, tstate)
+            return tv
         merge_states(env, c, tstate, estate)
         return merge_vals(c, tv, ev)
+
+    early_returns = []
 
     cond_stack = []
 
@@ -890,6 +923,12 @@ class Interp:
         finally:
             self.loops.pop()
             self.class_of_index = old
+        # loop-carried dependence: a variable that is written by the loop and also read in it may observe earlier iterations
+        written = set(var for (var, _p, _o, _v, _g, _b) in lc.effects)
+        carried = sorted(v_ for v_ in (written & lc.reads) if v_ not in lc.inner_vars)
+        if carried:
+            self.recurrences.append({"vars": carried, "binder": (k, cls), "guards": list(guards), "effects": list(lc.effects)})
+            raise Undecided("loop-carried dependence: the loop reads and writes %s (a recurrence, not a reduction)" % carried)
         # apply effects
         for (var, path, op, val, gs, bs) in lc.effects:
             self.apply_summarised(var, path, op, val, lc, gs, env, bs)
